@@ -328,11 +328,37 @@ def C12(tier):
                      consts={"P1": 1, "P5": 2, "SZ": 4, "LSFIX": 1, "MINNS": 1},
                      bounds="all canonical connected simple edge lists N<=%d M<=%d x {SinkColoring,VAlign,PackRight} x {NS,LP}, polyline; symbolic widths in [0,64], "
                             "NodeSpacing in [1,64] (zero heights so that route points lie on the bands)" % (N, M)),
+           crossing_kernel_ob(tier),
            layout_ob("layout-crossings-70-layers", "Harness_E_C12", many_layer_shapes(), {"P2": [0, 1], "P4": [4, 1]},
                      consts={"P1": 1, "P5": 2, "SZ": 0, "NSFIX": 10, "LSFIX": 1}, loop=8192, depth=300, enctimeout=200, validate_cubes=1,
                      bounds="two graphs with 70 layers (two parallel 70-node paths, a crossing edge pair at layers 65/66 or 66/67, a third node in one layer): the "
                             "property's 'more than 64 layers' clause; no sizes")]
     return dict(obligations=obs)
+
+
+def crossing_kernel_ob(tier):
+    import itertools
+    q = tier == "quick"
+    cubes = []
+
+    def edge_sets(n1, n2, m):
+        return list(itertools.combinations([(i, j) for i in range(n1) for j in range(n2)], m))
+    sizes = [(2, 2, 2), (3, 2, 2), (2, 3, 2), (3, 3, 2)] if q else [(2, 2, 2), (3, 2, 2), (2, 3, 2), (3, 3, 2), (3, 3, 3), (4, 3, 2), (3, 4, 2)]
+    for (na, nb, nc) in sizes:
+        for m1 in ((2, 3) if q else (2, 3, 4)):
+            abs_ = edge_sets(na, nb, m1)
+            bcs = edge_sets(nb, nc, 2)
+            for ab in abs_[::max(1, len(abs_) // (12 if q else 40))]:
+                for bc in bcs[::max(1, len(bcs) // 3)]:
+                    c = {"NA": na, "NB": nb, "NC": nc, "MAB": m1, "MBC": 2, "PANICS": 1}
+                    for i, (f, t) in enumerate(ab):
+                        c["abf[%d]" % i], c["abt[%d]" % i] = f, t
+                    for i, (f, t) in enumerate(bc):
+                        c["bcf[%d]" % i], c["bct[%d]" % i] = f, t
+                    cubes.append(c)
+    return dict(name="crossing-counter-kernel", pkg="internal/phase3", func="Harness_CountCrossings", consts={}, cubes=cubes, enctimeout=200, qtimeout=100,
+                bounds="real countCrossings vs naive pair count on three consecutive layers of up to %s nodes with simple edge sets (cubes); symbolic: the in-layer order of "
+                       "every layer (solver-chosen permutation) and the index of the first layer in 0..100 (the counter filters edges by layer index); panic sites included" % nm(q, "3/3/2", "4/4/3"))
 
 
 def many_layer_shapes():
